@@ -1,8 +1,9 @@
 (* Property C06 - literal text, verbatim blocks and comments are reproduced exactly.
    Lexer half: text is one HTML token holding the source slice; independent fragments lex to
-   the concatenation of their token lists. (The rendering half is in Props/C06r.v.) *)
+   the concatenation of their token lists. The rendering half follows below. *)
 From PV Require Import Lib.Bytes Lib.GoInt gen.Tables Model.Lexer Spec.SpecLex.
-From PV Require Import Tie.C16.
+From PV Require Import Model.Api Spec.SpecRender.
+From PV Require Import Tie.C16 Tie.C06r.
 Open Scope N_scope.
 
 (* a source without an opening delimiter is one text token holding exactly the source *)
@@ -18,3 +19,145 @@ Theorem C06_lex_compose : forall l : list frag,
   frags_ok l -> lex (frags_src l) = LexOk (frags_toks l (1, 1)%Z).
 Proof. exact tie_lex_compose. Qed.
 Print Assumptions C06_lex_compose.
+
+(* ================= rendering half ================= *)
+(* Property C06 - literal text, verbatim blocks and comments are reproduced exactly.
+   Rendering half (the lexer half is Props/C06.v).
+
+   Everything in the source that is not inside a tag, variable or comment is copied to the
+   output byte for byte, for any bytes; a source without {{ {% {# renders to itself; independent
+   fragments written next to each other render to the concatenation of their renderings;
+   comments emit nothing; templatetag emits exactly the delimiter it names.
+
+   What each theorem contributes:
+   - C06_render_text_identity: end to end through the API (FromString + Execute): for every
+     world (loaders, trim_blocks/lstrip_blocks, bans, globals), every delimiter-free source of
+     any length and content (the empty one included) and every context the identifier check
+     accepts, the observation is OK with exactly the source.  The block options change nothing
+     because a text token without a neighbouring tag carries no trimming flag.
+   - C06_ident_check_merged: the check is made on globals merged with the context; it holds as
+     soon as both have identifier keys.
+   - C06_render_literal_fragments: end to end for sources made of text, {# comments #} and
+     verbatim blocks in any order and number (up to the model's fuel): the output is the texts
+     and verbatim bodies in order, a comment contributes nothing.
+   - C06_exec_nodes_app / _prefix: at node level, the output of a ++ b is the output of a
+     followed by the output of b from the state a leaves; when a fails its output so far is the
+     result; whatever happens, what a ++ b wrote starts with what a wrote.  (Fuel: a list uses
+     one unit per node, so [a] and [a ++ b] run on length a + f and [b] on f; the equation is
+     exact for every f, no monotonicity needed.)
+   - C06_comment_emits_nothing, C06_templatetag_exact: the two nodes, at execution.
+   - C06_comment_parse, C06_templatetag_parse(_unknown), C06_templatetag_table: at parse level,
+     {% comment %} becomes the silent node whatever it encloses; the argument of templatetag is
+     looked up in the generated table, which is the documented one (Spec/SpecRender.v), and a
+     name outside it is a parse error. *)
+
+Theorem C06_render_text_identity : forall (w : world) (s : str) (ctx : list (str * cval)),
+  delim_free s = true ->
+  keys_ok (ctx_update (w_globals w) ctx) = true ->
+  api_render_string w s ctx = OOk s.
+Proof. exact tie_render_text_identity. Qed.
+Print Assumptions C06_render_text_identity.
+
+Theorem C06_ident_check_merged : forall (globals ctx : list (str * cval)),
+  keys_ok globals = true -> keys_ok ctx = true -> keys_ok (ctx_update globals ctx) = true.
+Proof. exact tie_keys_ok_merged. Qed.
+Print Assumptions C06_ident_check_merged.
+
+Theorem C06_render_literal_fragments : forall (w : world) (l : list frag) (ctx : list (str * cval)),
+  frags_ok l -> forallb frag_literal l = true ->
+  N.of_nat (length l) <= 59000 ->
+  keys_ok (ctx_update (w_globals w) ctx) = true ->
+  api_render_string w (frags_src l) ctx = OOk (frags_text l).
+Proof. exact tie_render_literal_frags. Qed.
+Print Assumptions C06_render_literal_fragments.
+
+Theorem C06_exec_nodes_app : forall (se : senv) (globals : list (str * cval))
+                                    (a b : list node) (f : nat) (st : mstate),
+  exec_nodes se globals (length a + f) st (a ++ b) =
+  (let '(o1, r1) := exec_nodes se globals (length a + f) st a in
+   match r1 with
+   | Ok st1 => let '(o2, r2) := exec_nodes se globals f st1 b in (o1 ++ o2, r2)
+   | _ => (o1, r1)
+   end).
+Proof. exact exec_nodes_app. Qed.
+Print Assumptions C06_exec_nodes_app.
+
+Theorem C06_exec_nodes_app_prefix : forall (se : senv) (globals : list (str * cval))
+                                           (a b : list node) (f : nat) (st : mstate),
+  is_prefix_of (fst (exec_nodes se globals (length a + f) st a))
+               (fst (exec_nodes se globals (length a + f) st (a ++ b))).
+Proof. exact exec_nodes_app_prefix. Qed.
+Print Assumptions C06_exec_nodes_app_prefix.
+
+Theorem C06_comment_emits_nothing : forall (se : senv) (globals : list (str * cval)) (f : nat) (st : mstate),
+  exec_node se globals (S f) st NComment = ([], Ok st).
+Proof. exact comment_emits_nothing. Qed.
+Print Assumptions C06_comment_emits_nothing.
+
+Theorem C06_templatetag_exact : forall (se : senv) (globals : list (str * cval)) (f : nat) (st : mstate) (c : str),
+  exec_node se globals (S f) st (NTemplatetag c) = (c, Ok st).
+Proof. exact templatetag_exact. Qed.
+Print Assumptions C06_templatetag_exact.
+
+Theorem C06_templatetag_table : templatetag_map = templatetag_spec.
+Proof. exact tie_templatetag_table. Qed.
+Print Assumptions C06_templatetag_table.
+
+(* [116; 97; ...] is "tagTemplateTagParser", the parser "templatetag" dispatches to *)
+Theorem C06_templatetag_parse : forall se f level t st ts out,
+  is_typ t TIdentifier = true ->
+  assoc_get (tval t) templatetag_spec = Some out ->
+  tag_parser se (S f) level
+    [116; 97; 103; 84; 101; 109; 112; 108; 97; 116; 101; 84; 97; 103; 80; 97; 114; 115; 101; 114]
+    [t] st ts = Ok (NTemplatetag out, ts, st).
+Proof. exact tie_templatetag_parse. Qed.
+Print Assumptions C06_templatetag_parse.
+
+Theorem C06_templatetag_parse_unknown : forall se f level t rest st ts,
+  assoc_get (tval t) templatetag_spec = None ->
+  tag_parser se (S f) level
+    [116; 97; 103; 84; 101; 109; 112; 108; 97; 116; 101; 84; 97; 103; 80; 97; 114; 115; 101; 114]
+    (t :: rest) st ts = Err 2.
+Proof. exact tie_templatetag_parse_unknown. Qed.
+Print Assumptions C06_templatetag_parse_unknown.
+
+(* [116; 97; ...] is "tagCommentParser"; [101; 110; ...] is "endcomment" *)
+Theorem C06_comment_parse : forall se f level st ts r,
+  skip_until [ [101; 110; 100; 99; 111; 109; 109; 101; 110; 116] ] ts = Ok r ->
+  tag_parser se (S f) level
+    [116; 97; 103; 67; 111; 109; 109; 101; 110; 116; 80; 97; 114; 115; 101; 114] [] st ts =
+  Ok (NComment, r, st).
+Proof. exact comment_parse. Qed.
+Print Assumptions C06_comment_parse.
+
+Theorem C06_tag_dispatch :
+  assoc_get [116; 101; 109; 112; 108; 97; 116; 101; 116; 97; 103] (* templatetag *) tag_impl =
+    Some [116; 97; 103; 84; 101; 109; 112; 108; 97; 116; 101; 84; 97; 103; 80; 97; 114; 115; 101; 114] /\
+  assoc_get [99; 111; 109; 109; 101; 110; 116] (* comment *) tag_impl =
+    Some [116; 97; 103; 67; 111; 109; 109; 101; 110; 116; 80; 97; 114; 115; 101; 114].
+Proof. exact tie_tag_dispatch. Qed.
+
+(* Non-vacuity: a world with both block options on and a global, a context with an identifier
+   key, a text with stray braces, a newline and an invalid UTF-8 byte meet the hypotheses of
+   C06_render_text_identity - and so does the empty source. *)
+Example C06r_witness :
+  delim_free c06_text = true /\ keys_ok (ctx_update (w_globals c06_world) c06_ctx) = true /\
+  delim_free [] = true.
+Proof. exact tie_c06r_witness. Qed.
+
+(* a{# c #}{% verbatim %}{{y}}{% endverbatim %}<newline>  renders to  a{{y}}<newline> *)
+Example C06r_fragments_witness :
+  frags_ok c06_frags /\ forallb frag_literal c06_frags = true /\
+  frags_text c06_frags = [97; 123; 123; 121; 125; 125; 10] /\
+  api_render_string c06_world (frags_src c06_frags) c06_ctx = OOk [97; 123; 123; 121; 125; 125; 10].
+Proof. exact tie_c06r_frags_witness. Qed.
+
+(* {% templatetag openblock %} renders to {% ; a{% comment %}b{% endcomment %}c renders to ac *)
+Example C06r_tags_witness :
+  api_render_string c06_world
+    [123; 37; 32; 116; 101; 109; 112; 108; 97; 116; 101; 116; 97; 103; 32; 111; 112; 101; 110; 98; 108; 111; 99; 107; 32; 37; 125]
+    c06_ctx = OOk [123; 37] /\
+  api_render_string c06_world
+    [97; 123; 37; 32; 99; 111; 109; 109; 101; 110; 116; 32; 37; 125; 98; 123; 37; 32; 101; 110; 100; 99; 111; 109; 109; 101; 110; 116; 32; 37; 125; 99]
+    c06_ctx = OOk [97; 99].
+Proof. exact tie_c06r_tags_witness. Qed.
